@@ -378,7 +378,7 @@ CHECKS["C12"] = dict(
          "in-process and parsed); a report is normalised to function + access kind + trimmed source line of the top go-netty frame of both "
          "stacks. Non-trivial = goroutines of one program touch the same object with at least one mutating operation; class labels record "
          "the operation pairs covered.",
-    required=["target:sync", "target:qblock", "target:qnonblock", "target:bootstrap", "target:tcp", "target:holder", "target:idle", "target:pool", "target:bare",
+    required=["target:sync", "target:qblock", "target:qnonblock", "target:bootstrap", "target:tcp", "target:holder", "target:idle", "target:pool", "target:bare", "target:json",
               "pair:qblock:close~write1", "pair:bootstrap:listen-async~shutdown", "pair:holder:closeall~open-channel"],
     assumptions=["only executed code is judged; the detector keeps a bounded access history per word, hence repetitions and pacing",
                  "harness data shared between goroutines is synchronised; a report without any go-netty frame is treated as a harness bug (inconclusive)",
